@@ -20,6 +20,37 @@ CLAIMS = {
             "before the first). Tie to the code: bit-exact correspondence of the extracted model with "
             "ControlPoints::add/*_point_at on exhaustive small-alphabet and random histories, plus a linear-scan oracle.",
             "§6 C13"),
+    "C07": ("Unbounded theorems (coq/Properties/C07.v), for ANY curve-distance function: the nine decoder types are nine "
+            "instantiations of the framing driver with their state nesting and delegation chains written out as in the "
+            "code; for each specialised decoder, whenever the full Beatmap decode completes its projection on the shared "
+            "fields IS the specialised decoder's result (simulation relation preserved by all eleven parse functions and "
+            "the finishing conversions), HitObjects agrees exactly including failures, the parse never fails and the "
+            "Beatmap decode can only fail inside the curve distance; all nine use the same skip rule. Tie to the code: "
+            "bit-exact correspondence of all nine extracted decoders with from_bytes::<T> on whole generated files "
+            "(curves and map-level processing included), plus the oracle T == projection of Beatmap on generated, "
+            "mutated, noisy and bundled inputs.",
+            "§6 C07"),
+    "C06": ("Unbounded theorems (coq/Properties/C06.v): for every state of every section parser of every decoder a rejected "
+            "line leaves the state equal up to the two scratch buffers of the hit-object state (T06a); that equivalence is "
+            "a congruence for every parser and the finishing conversions ignore the scratch buffers (T06b); hence for all "
+            "nine decoders decoding pre ++ l :: post equals decoding pre ++ post whenever l is routed to a parser and "
+            "rejected there (T06c, via the framing deletion lemma). D3 (residue of a rejected multi-segment slider) was "
+            "found by this machinery and repaired (fix 26f4d98). Tie to the code: full-decode correspondence on files with "
+            "targeted corruptions; oracle: a probing decoder records the rejected routed lines, each is removed and the "
+            "results must be equal.",
+            "§6 C06"),
+    "C01": ("PARTIAL, one theorem per layer (coq/Properties/C01.v). Proved: from lines to value every decoder's parse never "
+            "panics (hit-object lines, timing-point lines and flush, control-point lookups by sortedness, slider loop "
+            "body, framing fuel), TimingPoints and the seven simpler decoders are total outright, HitObjects/Beatmap are "
+            "total whenever the curve distance returns a value on the sliders present (the only remaining obligation is "
+            "the Bezier subdivision fuel, measured generous but not proved for IEEE arithmetic); node count = repeats + 2 "
+            "<= 9001; NonZeroU32::new_unchecked only sees values >= 2. Bytes to lines: C08/C09/C10 theorems (no panic, "
+            "fuel sufficient, errors only from the reader except the recorded class D6). OPEN: encoder totality / UTF-8 "
+            "validity of re-encoding as a theorem (covered by correspondence and oracle only), memory safety of the unsafe "
+            "blocks (outside the model). Tie to the code: all nine decoders on noise, grammar files, mutations, "
+            "truncations at every length, BOM/UTF-16 variants, in release, debug (overflow checks) and tracing-feature "
+            "builds with a formatting subscriber; 15 s watchdog per input.",
+            "§6 C01"),
     "C10": ("Unbounded theorems (coq/Properties/C10.v, axiom-free): UTF-8 / UTF-16LE / UTF-16BE codec round trips for every "
             "scalar string; unpaired surrogates become U+FFFD; the hand-written lossy loop of encoding.rs equals a one-pass "
             "lossy_spec automaton for ALL byte lists (never out of fuel; the unchecked prefix always validates) and is "
